@@ -424,7 +424,7 @@ pub fn run(ctx: &RunCtx) -> i32 {
         let mut r = Report::new();
         for (t, m) in [(Transport::Unreliable { rto_ms: 100, gran_ms: 1, rm: 2, rc: 1 }, Mech::ShortTerm(None)), (Transport::Unreliable { rto_ms: 100, gran_ms: 1, rm: 2, rc: 2 }, Mech::ShortTerm(Some(true)))] {
             let cfg = Cfg { transport: t, mech: m, fingerprint: false, max_tx: 10, cred: 0, method: 1 };
-            let st = bfs(&cfg, &apps, &Mon::narrow(4, &cfg), if thorough { 13 } else { 11 }, if thorough { 8_000_000 } else { 2_000_000 }, &mut r);
+            let st = bfs(&cfg, &apps, &Mon::narrow(4, &cfg), if thorough { 13 } else { 10 }, if thorough { 8_000_000 } else { 2_000_000 }, &mut r);
             r.states += st.states;
             r.transitions += st.transitions;
             let d = r.extra.get("max_four_requests_depth_completed").and_then(|v| v.as_u64()).unwrap_or(0).max(st.depth_completed as u64);
@@ -533,7 +533,7 @@ pub fn run(ctx: &RunCtx) -> i32 {
         rep,
         Finish {
             level: "model_checking",
-            rule: format!("breadth-first exploration of the real client to depth {} for 2 transports x algorithm {{to be learned, MI, SHA256}} over {{Send (<=2), Indicate, Timer, AdvanceTo(next point, +1 ms, beyond), Deliver(each awaiting request x {{valid MI, valid SHA256, both, none, corrupted MI, corrupted SHA256, MI / SHA256 under another password, MI wrong in two bytes four apart with the same mask, SHA256 with every byte inverted}} as success (and 4 of them as error response), Deliver(indication x the 8 kinds), Deliver(an acceptable / a wrongly keyed indication carrying the id of an awaiting request), exact duplicate of the last buffer}}; replies are built by the reference codec with independent HMACs; plus the same alphabet with three requests in flight (one level shallower), four requests in flight over a narrow alphabet (Send, Timer, AdvanceTo, one acceptable and one wrongly keyed reply per awaiting request) four levels deeper, requests and indications built from 4 application attribute lists that pre-populate USERNAME / MESSAGE-INTEGRITY / MESSAGE-INTEGRITY-SHA256 under the application's own key (depth 5 / 6, algorithm learned along the way; these six configurations also rotate through three credential sets - short ASCII, 70-byte user with 129-byte password, non-ASCII user with a password rewritten by OpaqueString enforcement - methods 0x001 / 0x080 / 0xFFF and fingerprint on / off), two requests on fingerprint-enforcing clients with every reply carrying a right, wrong or missing FINGERPRINT (a message refused for its FINGERPRINT is refused entirely: no delivery, no learning, no event; only when it ALSO fails the integrity check may it leave the protection-violated marker), a directed run with 40 (thorough 130) outstanding requests that each receive a wrongly keyed response and then time out together, and deviation-bounded runs on the default timing. Monitor: agreed := configured, else learned at the first delivered response; acceptable responses are delivered, everything else is not; wrong / absent integrity => ProtectionViolated at once on reliable transport, ignored (Err, no events) on unreliable transport and ProtectionViolated instead of TimedOut at the end unless an acceptable response arrived; both-MACs and other-algorithm replies only need to be rejected; every request and indication sent carries USERNAME and integrity attributes that verify under the password (the agreed kind once agreed)", depth),
+            rule: format!("breadth-first exploration of the real client to depth {} for 2 transports x algorithm {{to be learned, MI, SHA256}} over {{Send (<=2), Indicate, Timer, AdvanceTo(next point, +1 ms, beyond), Deliver(each awaiting request x {{valid MI, valid SHA256, both, none, corrupted MI, corrupted SHA256, MI / SHA256 under another password, MI wrong in two bytes four apart with the same mask, SHA256 with every byte inverted}} as success (and 4 of them as error response), Deliver(indication x the 8 kinds), Deliver(an acceptable / a wrongly keyed indication carrying the id of an awaiting request), exact duplicate of the last buffer}}; replies are built by the reference codec with independent HMACs; plus the same alphabet with three requests in flight (one level shallower), four requests in flight over a narrow alphabet (Send, Timer, AdvanceTo, one acceptable and one wrongly keyed reply per awaiting request) three (thorough four) levels deeper, requests and indications built from 4 application attribute lists that pre-populate USERNAME / MESSAGE-INTEGRITY / MESSAGE-INTEGRITY-SHA256 under the application's own key (depth 5 / 6, algorithm learned along the way; these six configurations also rotate through three credential sets - short ASCII, 70-byte user with 129-byte password, non-ASCII user with a password rewritten by OpaqueString enforcement - methods 0x001 / 0x080 / 0xFFF and fingerprint on / off), two requests on fingerprint-enforcing clients with every reply carrying a right, wrong or missing FINGERPRINT (a message refused for its FINGERPRINT is refused entirely: no delivery, no learning, no event; only when it ALSO fails the integrity check may it leave the protection-violated marker), a directed run with 40 (thorough 130) outstanding requests that each receive a wrongly keyed response and then time out together, and deviation-bounded runs on the default timing. Monitor: agreed := configured, else learned at the first delivered response; acceptable responses are delivered, everything else is not; wrong / absent integrity => ProtectionViolated at once on reliable transport, ignored (Err, no events) on unreliable transport and ProtectionViolated instead of TimedOut at the end unless an acceptable response arrived; both-MACs and other-algorithm replies only need to be rejected; every request and indication sent carries USERNAME and integrity attributes that verify under the password (the agreed kind once agreed)", depth),
             assumptions: vec!["single user / password pair".into(), "indications carrying both MACs are not judged (the statement speaks of responses)".into()],
             required_symbols: vec!["bfs-configs", "delivered-authenticated", "ignored-unauthenticated", "protection-violated-on-reliable", "rejected-both-or-other-algorithm", "protection-violated-at-timeout", "plain-timeout", "outgoing-packet-authenticated", "deviation-runs", "Redeliver", "three-requests", "four-requests-narrow", "application-supplied-credentials", "many-marked-requests", "fingerprint-with-short-term", "refused-for-its-fingerprint"],
             min_outcomes: 8,
